@@ -458,10 +458,22 @@ fn signature_expiration_time<B: BufRead>(mut i: B) -> Result<SubpacketData> {
     Ok(SubpacketData::SignatureExpirationTime(duration))
 }
 
+/// Reads a boolean subpacket value ("1 octet of boolean data": 0 or 1).
+///
+/// Other values are rejected: the subpacket is hashed in its re-serialized form, so a lenient
+/// reading would let differing subpacket octets verify under the same signature.
+fn read_boolean<B: BufRead>(mut i: B) -> Result<bool> {
+    match i.read_u8()? {
+        0 => Ok(false),
+        1 => Ok(true),
+        v => bail!("invalid boolean subpacket value {}", v),
+    }
+}
+
 /// Parse an Exportable Certification subpacket.
 /// Ref: https://www.rfc-editor.org/rfc/rfc9580.html#name-exportable-certification
 fn exportable_certification<B: BufRead>(mut i: B) -> Result<SubpacketData> {
-    let is_exportable = i.read_u8()? == 1;
+    let is_exportable = read_boolean(&mut i)?;
 
     Ok(SubpacketData::ExportableCertification(is_exportable))
 }
@@ -469,7 +481,7 @@ fn exportable_certification<B: BufRead>(mut i: B) -> Result<SubpacketData> {
 /// Parse a Revocable subpacket
 /// Ref: https://www.rfc-editor.org/rfc/rfc9580.html#name-revocable
 fn revocable<B: BufRead>(mut i: B) -> Result<SubpacketData> {
-    let is_revocable = i.read_u8()? == 1;
+    let is_revocable = read_boolean(&mut i)?;
 
     Ok(SubpacketData::Revocable(is_revocable))
 }
@@ -544,7 +556,7 @@ fn preferred_key_server<B: BufRead>(mut i: B) -> Result<SubpacketData> {
 /// Parse a Primary User ID subpacket
 /// Ref: https://www.rfc-editor.org/rfc/rfc9580.html#name-primary-user-id
 fn primary_userid<B: BufRead>(mut i: B) -> Result<SubpacketData> {
-    let is_primary = i.read_u8()? == 1;
+    let is_primary = read_boolean(&mut i)?;
 
     Ok(SubpacketData::IsPrimary(is_primary))
 }
